@@ -97,6 +97,12 @@ impl MetadataClient for LocalMetadataClient {
         let mut results = Vec::new();
         let mut seen = std::collections::HashSet::new();
 
+        // An inverted range denotes no instant at all: nothing can overlap it
+        // (and BTreeMap::range panics when start > end).
+        if range.start > range.end {
+            return Ok(results);
+        }
+
         // Calculate hour buckets that overlap with the range
         let start_bucket = Self::hour_bucket(range.start);
         let end_bucket = Self::hour_bucket(range.end);
